@@ -27,11 +27,26 @@ RULE = ('A server-side process handler writes drawn stdout/stderr streams '
         'remaining lines, with window and max packet size from 1 byte up '
         'so that separators and characters straddle packets; a sequential '
         'reference reader over the total stream, independent of chunking, '
-        'gives the expected result of every call. run mode: conn.run()/ '
+        'gives the expected result of every call; a program may also hold '
+        'a read the caller gives up on after a drawn number of events (it '
+        'must consume nothing), a consumer that sleeps before it reads, a '
+        'server that hangs up once the command is done, and a command that '
+        'forwards two local sources (one of them slow) through a small send '
+        'buffer instead of writing itself. run mode: conn.run()/ '
         'communicate()/wait() must return the complete stdout and stderr '
         'together with the exit status or signal. redirect mode: stdout to a '
-        'file / DEVNULL / another process\'s stdin, stdin from a file: all '
-        'data then EOF. drain() must return under backpressure and raise once '
+        'file / file object / DEVNULL / StreamWriter / async file / another '
+        'process\'s stdin / stdout, stdin from a file / StreamReader / async '
+        'file / another process: all data then EOF; the output of two '
+        'commands concatenated into a third with recv_eof=False set up after '
+        'a drawn delay; a redirect switched to a second target while data '
+        'flows; a target that fails after a drawn number of writes (the '
+        'call must still return and the connection survive). A further '
+        'population types lines and Ctrl-D at a terminal with the line '
+        'editor on: a model over the lines and the soft EOFs between them '
+        'gives the result of each call on the command\'s stdin. No '
+        'connection may end with an exception escaped from the library. '
+        'drain() must return under backpressure and raise once '
         'the channel is gone. The scheduler decides segmentation, delivery '
         'order and reader/writer interleaving. Non-trivial = at least one '
         'read call on a non-empty stream; distinct = (plan, schedule, trace) '
